@@ -319,6 +319,12 @@ func (r *c19flow) walk(v ssa.Value, facts []Fact) []c19org {
 				return c19retype(r.walk(t.X, facts), t.AssertedType)
 			}
 		}
+	case *ssa.Index:
+		return r.elems(x.X, x.Type(), facts)
+	case *ssa.Lookup:
+		if _, isMap := x.X.Type().Underlying().(*types.Map); isMap && !x.CommaOk {
+			return r.elems(x.X, x.Type(), facts)
+		}
 	case *ssa.Field:
 		return r.sel(r.walk(x.X, facts), x.X.Type(), fieldName(x.X.Type(), x.Field), x.Type())
 	case *ssa.FieldAddr:
@@ -364,8 +370,84 @@ func (r *c19flow) load(addr ssa.Value, t types.Type, facts []Fact) []c19org {
 			return r.leaf(a, t, facts)
 		}
 		return out
+	case *ssa.IndexAddr:
+		return r.elems(a.X, t, facts) // an element of a slice / array: whatever was put into the container
 	}
 	return r.walk(addr, facts) // paths auto-dereference: *p.f and p.f are the same path
+}
+
+// elems: what an element of the container x (slice, array, pointer to array, map) can be - element-insensitive: every
+// value stored into an element of the array / slice / map object(s) x designates (a literal, a variadic argument list,
+// append, make + assignments). A container that is not built in view yields the origin <container>.[].
+func (r *c19flow) elems(x ssa.Value, t types.Type, facts []Fact) []c19org {
+	var out []c19org
+	partial := false
+	stored := func(obj ssa.Value, fs []Fact) (n int) {
+		refs := obj.Referrers()
+		if refs == nil {
+			return 0
+		}
+		for _, ref := range *refs {
+			switch y := ref.(type) {
+			case *ssa.IndexAddr:
+				if y.X != obj {
+					continue
+				}
+				for _, rr := range *y.Referrers() {
+					switch z := rr.(type) {
+					case *ssa.Store:
+						if z.Addr == ssa.Value(y) {
+							n++
+							out = append(out, r.walk(z.Val, c19facts(fs, localFactsAt(z.Block())...))...)
+						}
+					case *ssa.FieldAddr, *ssa.IndexAddr:
+						partial = true // an element filled in part by part (a table of structs): not looked into
+					}
+				}
+			case *ssa.MapUpdate:
+				if y.Map == obj {
+					n++
+					out = append(out, r.walk(y.Value, c19facts(fs, localFactsAt(y.Block())...))...)
+				}
+			}
+		}
+		return n
+	}
+	for _, o := range r.walk(x, facts) {
+		if len(o.fields) == 0 {
+			switch c := o.root.(type) {
+			case *ssa.Slice:
+				out = append(out, r.elems(c.X, t, o.facts)...)
+				continue
+			case *ssa.Alloc:
+				if _, isArr := c19elem(c.Type()).Underlying().(*types.Array); isArr {
+					partial = false
+					if stored(c, o.facts); partial {
+						out = append(out, o.sel("[]", t))
+					}
+					continue // an array never written holds zero values only
+				}
+			case *ssa.MakeSlice, *ssa.MakeMap:
+				partial = false
+				if stored(c, o.facts); partial {
+					out = append(out, o.sel("[]", t))
+				}
+				continue
+			case *ssa.Const:
+				if c.Value == nil {
+					continue // a nil slice / map has no elements
+				}
+			case *ssa.Call:
+				if b, isB := c.Call.Value.(*ssa.Builtin); isB && b.Name() == "append" && len(c.Call.Args) == 2 {
+					out = append(out, r.elems(c.Call.Args[0], t, o.facts)...)
+					out = append(out, r.elems(c.Call.Args[1], t, o.facts)...)
+					continue
+				}
+			}
+		}
+		out = append(out, o.sel("[]", t))
+	}
+	return out
 }
 
 // sel applies a field selection to origins; a field of a freshly built object is whatever was stored into it.
@@ -406,9 +488,11 @@ func (r *c19flow) sel(os []c19org, owner types.Type, field string, t types.Type)
 					out = append(out, r.sel(r.walk(st.Val, c19facts(o.facts, localFactsAt(st.Block())...)), owner, field, t)...)
 				}
 			}
-			if n > 0 {
+			if n > 0 && len(out) > from {
 				continue
 			}
+			// never stored, or only ever stored in terms of itself (`x.f = fill(x.f)`: the cycle contributes no origin):
+			// the field holds its initial content
 		}
 		out = append(out, o.sel(field, t))
 		mark(from, false)
@@ -471,7 +555,8 @@ func (r *c19flow) param(x *ssa.Parameter, facts []Fact) []c19org {
 		return r.leaf(x, x.Type(), facts)
 	}
 	sites := append(append([]ssa.CallInstruction{}, gSites[fn]...), c19invokeSitesOf(fn)...)
-	if len(sites) == 0 || r.hops >= c19maxHops {
+	dyn, dynKnown := c19dynSitesOf(fn) // a closure / function / method value handed around as a value (callback, functional option)
+	if len(sites)+len(dyn) == 0 || r.hops >= c19maxHops {
 		return r.leaf(x, x.Type(), facts)
 	}
 	// a parameter of a function other than the one entered last (an object filled in by another function, a closure
@@ -481,8 +566,10 @@ func (r *c19flow) param(x *ssa.Parameter, facts []Fact) []c19org {
 	r.hops++
 	defer func() { r.hops--; r.stack = saved }()
 	var out []c19org
-	if gAddrTaken[fn] {
-		out = append(out, r.leaf(x, x.Type(), facts)...) // may also be called through a function value
+	if gAddrTaken[fn] && (!dynKnown || c19sigEscapes(c19valueSig(fn))) {
+		// may also be called through a function value from a place that is not in view: code outside the repository that
+		// was handed a function of this signature (the calls of function values inside the repository are among the sites)
+		out = append(out, r.leaf(x, x.Type(), facts)...)
 	}
 	for _, s := range sites {
 		arg := c19argOf(s, idx)
@@ -490,6 +577,21 @@ func (r *c19flow) param(x *ssa.Parameter, facts []Fact) []c19org {
 			continue
 		}
 		out = append(out, r.recvOnly(r.walk(arg, c19facts(facts, factsAt(s.Block())...)), s, x, idx)...)
+	}
+	for _, d := range dyn {
+		var arg ssa.Value
+		switch {
+		case d.bound == nil:
+			arg = c19argOf(d.site, idx)
+		case idx == 0:
+			arg = d.bound // the receiver of a method value is what the value was made from
+		default:
+			arg = c19argOf(d.site, idx-1)
+		}
+		if arg == nil || d.site.Block() == nil {
+			continue
+		}
+		out = append(out, r.walk(arg, c19facts(facts, factsAt(d.site.Block())...))...)
 	}
 	return out
 }
@@ -567,6 +669,11 @@ var c19prog struct {
 	methods     map[string][]*ssa.Function       // method name -> repository methods
 	alias       map[c19aliasKey][]*ssa.Store
 	impls       map[*types.Func][]*ssa.Function
+	fns         []*ssa.Function
+	dyn         map[*ssa.Function][]c19dynSite // function -> calls of a function VALUE that can denote it
+	dynBusy     map[*ssa.Function]bool
+	dynCalls    []ssa.CallInstruction // the calls of function values in the repository
+	sigEsc      map[string]bool
 }
 
 type c19aliasKey struct {
@@ -580,6 +687,8 @@ func c19index(c *Ctx) {
 	c19prog.methods = map[string][]*ssa.Function{}
 	c19prog.alias = map[c19aliasKey][]*ssa.Store{}
 	c19prog.impls = map[*types.Func][]*ssa.Function{}
+	c19prog.fns, c19prog.dyn, c19prog.dynBusy, c19prog.dynCalls = c.AllFns, map[*ssa.Function][]c19dynSite{}, map[*ssa.Function]bool{}, nil
+	c19prog.sigEsc = map[string]bool{}
 	for _, f := range c.AllFns {
 		if f.Signature.Recv() != nil && f.Parent() == nil {
 			c19prog.methods[f.Name()] = append(c19prog.methods[f.Name()], f)
@@ -656,6 +765,188 @@ func c19invokeSitesOf(fn *ssa.Function) []ssa.CallInstruction {
 		}
 	}
 	return out
+}
+
+// c19dynSitesOf: the calls `f(args)` of a function-typed VALUE (an element of a list of options, a callback parameter,
+// a field that holds a hook) in the repository that can run fn: the called value has fn's signature, and fn (or a
+// closure made from it) is among its origins - or its origins are not all visible.
+func c19dynSitesOf(fn *ssa.Function) (sites []c19dynSite, known bool) {
+	if c19prog.fns == nil || fn == nil {
+		return nil, false
+	}
+	if out, ok := c19prog.dyn[fn]; ok {
+		return out, true
+	}
+	if fn.Synthetic != "" {
+		return nil, false
+	}
+	if !(gAddrTaken[fn] || fn.Parent() != nil) {
+		return nil, true
+	}
+	if c19prog.dynBusy[fn] || len(c19prog.dynBusy) >= 2 {
+		return nil, false // (not cached) a callback inside the resolution of a callback: not followed further
+	}
+	if c19prog.dynCalls == nil {
+		c19prog.dynCalls = []ssa.CallInstruction{}
+		for _, f := range c19prog.fns {
+			eachInstr(f, func(i ssa.Instruction) {
+				ci, ok := i.(ssa.CallInstruction)
+				if !ok {
+					return
+				}
+				cc := ci.Common()
+				if cc.IsInvoke() || cc.StaticCallee() != nil {
+					return
+				}
+				if _, isB := cc.Value.(*ssa.Builtin); isB {
+					return
+				}
+				c19prog.dynCalls = append(c19prog.dynCalls, ci)
+			})
+		}
+	}
+	c19prog.dynBusy[fn] = true
+	defer delete(c19prog.dynBusy, fn)
+	want := c19valueSig(fn)
+	isMethod := fn.Signature.Recv() != nil
+	var out []c19dynSite
+	for _, ci := range c19prog.dynCalls {
+		cc := ci.Common()
+		sig, _ := cc.Value.Type().Underlying().(*types.Signature)
+		if sig == nil || !types.Identical(sig, want) {
+			continue
+		}
+		complete := true
+		orgs := (&c19flow{}).origins(cc.Value)
+		if len(orgs) == 0 {
+			complete = false
+		}
+		for _, o := range orgs {
+			var g *ssa.Function
+			var bound ssa.Value
+			switch x := o.root.(type) {
+			case *ssa.MakeClosure:
+				g, _ = x.Fn.(*ssa.Function)
+				if g != nil && g.Synthetic != "" && len(x.Bindings) == 1 && unwrap(g) != g { // a method value recv.m
+					g, bound = unwrap(g), x.Bindings[0]
+				}
+			case *ssa.Function:
+				g = x
+			case *ssa.Const:
+				if x.IsNil() && len(o.fields) == 0 {
+					continue
+				}
+			}
+			if g == nil || len(o.fields) != 0 {
+				complete = false
+				continue
+			}
+			if g == fn && (bound != nil) == isMethod {
+				out = append(out, c19dynSite{ci, bound})
+			}
+		}
+		if !complete && !isMethod {
+			out = append(out, c19dynSite{ci, nil})
+		}
+		if !complete && isMethod {
+			return nil, false // (not cached) the receiver cannot be told: the parameter stays a terminal
+		}
+	}
+	c19prog.dyn[fn] = out
+	return out, true
+}
+
+// c19dynSite: a call of a function value that can run the function; bound: the receiver the method value was made
+// from (nil for a plain function or closure).
+type c19dynSite struct {
+	site  ssa.CallInstruction
+	bound ssa.Value
+}
+
+// c19valueSig: the signature under which fn is called when it is used as a value (a method value has no receiver).
+func c19valueSig(fn *ssa.Function) *types.Signature {
+	sig := fn.Signature
+	if sig.Recv() == nil {
+		return sig
+	}
+	return types.NewSignatureType(nil, nil, nil, sig.Params(), sig.Results(), sig.Variadic())
+}
+
+// c19sigEscapes: a function value of signature sig can get into the hands of code outside the repository (which may
+// then call it with arguments that are not in view): somewhere in the repository a value of that function type is an
+// argument of a call whose callee is not a repository function, is stored into a field of a type or a variable of
+// another module, or is put into an interface.
+func c19sigEscapes(sig *types.Signature) bool {
+	if sig == nil {
+		return true
+	}
+	key := types.TypeString(sig, nil)
+	if v, ok := c19prog.sigEsc[key]; ok {
+		return v
+	}
+	var holds func(t types.Type, depth int) bool
+	holds = func(t types.Type, depth int) bool {
+		if t == nil || depth > 3 {
+			return false
+		}
+		switch u := types.Unalias(t).Underlying().(type) {
+		case *types.Signature:
+			return types.Identical(u, sig)
+		case *types.Slice:
+			return holds(u.Elem(), depth+1)
+		case *types.Array:
+			return holds(u.Elem(), depth+1)
+		case *types.Pointer:
+			return holds(u.Elem(), depth+1)
+		case *types.Map:
+			return holds(u.Elem(), depth+1)
+		case *types.Chan:
+			return holds(u.Elem(), depth+1)
+		}
+		return false
+	}
+	esc := false
+	for _, f := range c19prog.fns {
+		if esc {
+			break
+		}
+		eachInstr(f, func(i ssa.Instruction) {
+			if esc {
+				return
+			}
+			switch x := i.(type) {
+			case ssa.CallInstruction:
+				cc := x.Common()
+				if sc := cc.StaticCallee(); sc != nil && isRepoFn(sc) && len(sc.Blocks) > 0 {
+					return
+				}
+				if _, isB := cc.Value.(*ssa.Builtin); isB && !cc.IsInvoke() {
+					return
+				}
+				for _, a := range cc.Args {
+					esc = esc || holds(a.Type(), 0)
+				}
+			case *ssa.MakeInterface:
+				esc = esc || holds(x.X.Type(), 0)
+			case *ssa.Store:
+				if !holds(x.Val.Type(), 0) {
+					return
+				}
+				switch a := x.Addr.(type) {
+				case *ssa.FieldAddr:
+					if pkg, _ := c19named(a.X.Type()); !strings.HasPrefix(pkg, repoMod) {
+						esc = true
+					}
+				case *ssa.Global:
+					if a.Pkg == nil || !strings.HasPrefix(a.Pkg.Pkg.Path(), repoMod) {
+						esc = true
+					}
+				}
+			}
+		})
+	}
+	c19prog.sigEsc[key] = esc
+	return esc
 }
 
 // c19aliasFieldStores: the stores into field `field` of the object built at a that are made through another pointer
